@@ -91,7 +91,9 @@ def code_params(code):
 def find_def_node(fn):
     """The ast.FunctionDef / ast.Lambda of the function, from its real source file."""
     f = func_of(fn)
-    src = textwrap.dedent(inspect.getsource(f))
+    # the IMMEDIATE source of the object (inspect.getsource would follow __wrapped__)
+    lines, lnum = inspect.findsource(f)
+    src = textwrap.dedent(''.join(inspect.getblock(lines[lnum:])))
     try:
         tree = ast.parse(src)
     except SyntaxError:
@@ -269,7 +271,8 @@ def call_bindings(params, rng):
 def sig_kinds(f):
     return [(p.name, {'POSITIONAL_ONLY': 'posonly', 'POSITIONAL_OR_KEYWORD': 'pos', 'VAR_POSITIONAL': 'varpos',
                       'KEYWORD_ONLY': 'kwonly', 'VAR_KEYWORD': 'varkw'}[p.kind.name],
-             p.default is not inspect.Parameter.empty) for p in inspect.signature(f).parameters.values()]
+             p.default is not inspect.Parameter.empty)
+            for p in inspect.signature(f, follow_wrapped=False).parameters.values()]
 
 
 def run_call(fn, args, kwargs, setters, getters, base):
@@ -345,6 +348,15 @@ class CaseRunner:
                 out['tcaller'] = malt.to_graph(mod.call_m, recursive=True, experimental_optional_features=None)
             except Exception as e:   # noqa
                 self.fail('conversion of the calling function fails: %s' % str(e)[:200], crec, 0, None)
+        out['tcallf'] = None
+        if case.get('wrap'):
+            self.stat('carries___wrapped__:%s/%s%s' % (case['wrap'], case['wrap_sig'], '/calls' if case.get('wrap_calls') else ''))
+            if case['kind'] != 'method':
+                # the wrapper reached from recursively converted code: converted_call(fn, args, kwargs, fscope)
+                try:
+                    out['tcallf'] = malt.to_graph(mod.call_f, recursive=True, experimental_optional_features=None)
+                except Exception as e:   # noqa
+                    self.fail('conversion of the calling function fails: %s' % str(e)[:200], crec, 0, None)
         if case.get('falsy_self'):
             self.stat('falsy_receivers:' + case['falsy_self'])
         if case.get('cf_write'):
@@ -427,7 +439,7 @@ class CaseRunner:
             return
         # signature
         try:
-            s0, s1 = inspect.signature(ff), inspect.signature(tf)
+            s0, s1 = inspect.signature(ff, follow_wrapped=False), inspect.signature(tf, follow_wrapped=False)
         except Exception as e:
             raise common.InfraError('inspect.signature failed: %r' % e)
         shape = lambda s: [(p.name, p.kind.name, p.default is not inspect.Parameter.empty) for p in s.parameters.values()]
@@ -464,7 +476,7 @@ class CaseRunner:
                 self.fail('free variable %s of the original is not a free variable of the converted function' % n, crec, i, None)
         if inspect.ismethod(f):
             self.stat('bound_methods')
-            first = next(iter(inspect.signature(tf).parameters.values()), None)
+            first = next(iter(inspect.signature(tf, follow_wrapped=False).parameters.values()), None)
             if first is None or first.name not in ('self', 'cls'):
                 self.fail('converted bound method does not take the instance first', crec, i, None)
         # calls: every parameter kind; rebinding through the sibling setters before every call (outside -> in),
@@ -476,6 +488,10 @@ class CaseRunner:
             tc, recv = out['tcaller'], f.__self__
             targets.append(('caller', (lambda *a, **k: tc(recv, *a, **k))))
             self.stat('method_via_converted_caller')
+        if out.get('tcallf') is not None and not inspect.ismethod(f):
+            tcf = out['tcallf']
+            targets.append(('caller', (lambda *a, **k: tcf(f, *a, **k))))
+            self.stat('wrapper_via_converted_caller')
         sig_params = sig_kinds(f)
         unbound = case.get('bind') == 'unbound' and case['kind'] == 'method'
         if unbound:
@@ -862,6 +878,21 @@ def forced_cases():
                     api='convert', params=[P('q0', 'pos')]))
     out.append(dict(base, kind='method', super='super', cf_write=['x0', 'x1'], decl_global=True))
     out.append(dict(base, kind='factory_loop', ninst=2, cf_write=['x0', 'x1', 'x2'], decl_global=True))
+    # the converted entity carries __wrapped__: it is the wrapper whose interface / cells / behaviour must be kept
+    own = [P('q0', 'pos'), P('q1', 'pos', 'int'), P('va', 'varpos'), P('k0', 'kwonly', 'list'), P('vk', 'varkw')]
+    plain = dict(base, sibling_conv=False, decorated=False)
+    out.append(dict(plain, kind='toplevel', wrap='wraps', wrap_sig='star', wrap_calls=True))
+    out.append(dict(plain, kind='toplevel', wrap='update_wrapper', wrap_sig='own', wrap_calls=False, params=own))
+    out.append(dict(plain, kind='toplevel', wrap='manual', wrap_sig='star', wrap_calls=False, api='convert'))
+    out.append(dict(plain, kind='toplevel', wrap='stacked', wrap_sig='own', wrap_calls=True, params=own, namespaces=2))
+    out.append(dict(plain, kind='nested', wrap='wraps', wrap_sig='star', wrap_calls=True))
+    out.append(dict(plain, kind='nested', wrap='wraps', wrap_sig='own', wrap_calls=True, params=own, api='convert'))
+    out.append(dict(plain, kind='nested', wrap='stacked', wrap_sig='star', wrap_calls=True, decorated=True))
+    out.append(dict(plain, kind='nested', wrap='manual', wrap_sig='own', wrap_calls=False, params=own, free=[], free_nested=[],
+                    free_write=[]))
+    out.append(dict(plain, kind='factory_loop', ninst=2, wrap='update_wrapper', wrap_sig='own', wrap_calls=True, params=own))
+    out.append(dict(plain, kind='loop', ninst=2, wrap='wraps', wrap_sig='star', wrap_calls=True))
+    out.append(dict(plain, kind='method', super='super', wrap='wraps', wrap_sig='own', wrap_calls=True, params=own))
     # bound methods whose receiver is falsy, through every route (to_graph, convert wrapper, converted caller)
     out.append(dict(base, kind='method', super='both', falsy_self='len', api='convert'))
     out.append(dict(base, kind='method', super=None, falsy_self='bool'))
